@@ -46,7 +46,7 @@ NODE_CLASSES = {"eq": EqNode, "light": LightNode, "falsy": FalsyNode}
 def build(tree, names, parent=None, index=None, cls=Node):
     if index is None:
         index = {}
-    n = cls(names[tree[0]], parent=parent, label=tree[0])
+    n = cls(names[tree[0]], parent=parent, label=tree[0])     # names[...] may be a non-string object (see `typed`)
     index[tree[0]] = n
     for c in tree[1]:
         build(c, names, n, index, cls)
@@ -55,6 +55,9 @@ def build(tree, names, parent=None, index=None, cls=Node):
 
 def impl(case):
     names = {k: v for k, v in case["names"]}
+    for l in case.get("typed") or []:
+        import ast
+        names[l] = ast.literal_eval(names[l])         # the name is the number/boolean/None that prints like this
     root, index = build(case["tree"], names, cls=NODE_CLASSES.get(case.get("cls"), Node))
     start = index[case["start"]]
     fo, st = set(case["filter_out"]), set(case["stop"])
